@@ -35,6 +35,9 @@ func vfNetHistory(t *testing.T, rng *rand.Rand, mode int) (lit string, rec map[s
 		ctx, cancel := context.WithCancel(context.Background())
 		defer cancel()
 		nn := 2 + rng.Intn(5)
+		if rng.Intn(3) == 0 {
+			nn = 6 // the larger degrees need the larger networks
+		}
 		hosts := vfHosts(t, nn)
 		nodes := make([]*vfNNode, nn)
 		for i := range nodes {
@@ -95,11 +98,31 @@ func vfNetHistory(t *testing.T, rng *rand.Rand, mode int) (lit string, rec map[s
 				subscribe(i)
 			}
 		}
-		for i := 1; i < nn; i++ {
-			connect(i, rng.Intn(i))
-		}
-		for k := rng.Intn(nn); k > 0; k-- {
-			connect(rng.Intn(nn), rng.Intn(nn))
+		// topology: star (one hub of degree nn-1) / chain / complete graph / random tree plus a few extra links
+		shape := rng.Intn(5)
+		switch shape {
+		case 0, 1:
+			hub := rng.Intn(nn)
+			for i := 0; i < nn; i++ {
+				connect(i, hub)
+			}
+		case 2:
+			for i := 1; i < nn; i++ {
+				connect(i, i-1)
+			}
+		case 3:
+			for i := 0; i < nn; i++ {
+				for j := 0; j < i; j++ {
+					connect(i, j)
+				}
+			}
+		default:
+			for i := 1; i < nn; i++ {
+				connect(i, rng.Intn(i))
+			}
+			for k := rng.Intn(nn); k > 0; k-- {
+				connect(rng.Intn(nn), rng.Intn(nn))
+			}
 		}
 		time.Sleep(3 * time.Second)
 		// churn
@@ -305,6 +328,6 @@ func TestVF_Net(t *testing.T) {
 		cs.add(lit, rec, nt)
 		cs.kind([]string{"floodsub", "randomsub", "gossipsub", "mixed"}[mode])
 	}
-	cs.flush("random REAL networks of 2..6 nodes (all floodsub, all randomsub, all gossipsub, mixed), random connected topologies, roles subscriber (one or two subscriptions) / relay / bystander, up to 12 churn operations (subscribe, cancel, relay, relay-cancel, connect, disconnect) repaired to a connected overlay, 100 virtual seconds of settling (prune backoff expired and swept, heartbeats running), then three publications from random nodes that are members of or adjacent to the overlay; the copies received by every subscription are counted; " +
+	cs.flush("random REAL networks of 2..6 nodes (all floodsub, all randomsub, all gossipsub, mixed), random connected topologies (random trees with extra links, stars, chains, complete graphs), roles subscriber (one or two subscriptions) / relay / bystander, up to 12 churn operations (subscribe, cancel, relay, relay-cancel, connect, disconnect) repaired to a connected overlay, 100 virtual seconds of settling (prune backoff expired and swept, heartbeats running), then three publications from random nodes that are members of or adjacent to the overlay; the copies received by every subscription are counted; " +
 		"non-trivial = more than two overlay members and at least one churn operation; distinct = hash of the observations")
 }
